@@ -1817,6 +1817,7 @@ def run(ctx):
 
 
 SELFTESTS = [
+    (rule_owning_classes_not_copied, ["c07_own_bad.cc"], ["c07_own_good.cc"], "FixedError::copies"),
     (rule_rewind_changes_state, ["c07_rewind_bad.cc"], ["c07_rewind_good.cc"], "rewind of thisbit"),
     (rule_bitstream_access, ["c07_rewind_bad.cc"], ["c07_rewind_good.cc"], "scan_for::getbit"),
     (rule_throw_types, ["c07_throw_bad.cc"], ["c07_throw_good.cc"], "throw"),
